@@ -87,7 +87,7 @@ class Atom:
         """
         self.bonded_atoms: List[Atom] = []
         self.set_properties(line)
-        fmt = "{r.name:3s}{r.res_num:>4d}{r.chain_id:>2s}"
+        fmt = "{r.name:3s}{r.res_num:>4d}{r.icode:1s}{r.chain_id:>2s}"
         self.residue_label = fmt.format(r=self)
 
     def set_properties(self, line: Optional[str]):
